@@ -380,9 +380,19 @@ Proof.
   exists r4. cbn [Nat.add]. erewrite run_ops_step; [| subst ps pi pv pm; lia | exact Hs]. f_equal. subst ps pi pv pm. lia.
 Qed.
 
+Lemma exec_exit en props : exec_s_spec en props SExit.
+Proof.
+  intros d off len a fuel r m [Hag Hpr] Hst Hc Hoff Hlen. cbn [compile_s ninstr_s] in *. rewrite zlen_cons, zlen_nil in *.
+  assert (Hs : step d a r m = Ok (a + 1, r, after_s en props a SExit m)).
+  { apply (step_1 d a r m (b 1) "ExitOpcode" "" OExit _ Hc); [vm_compute; reflexivity | reflexivity |].
+    intros p1 p2. cbn [process]. unfold after_s, add_stmt. cbn [reify_s globals_s add_globals fold_left].
+    destruct m as [? [? ? ? ? ? ? ?] ?]; reflexivity. }
+  exists r. cbn [Nat.add]. erewrite run_ops_step; [| lia | exact Hs]. reflexivity.
+Qed.
+
 Theorem exec_s en props s : wf_s en s -> exec_s_spec en props s.
 Proof.
-  destruct s as [t e|f args|f args|f pid o v|k i v|n o v|pid it mn v]; intros Hwf.
+  destruct s as [t e|f args|f args|f pid o v|k i v|n o v|pid it mn v|]; intros Hwf.
   - apply exec_set; exact Hwf.
   - apply (exec_call_stmt en props false f args); exact Hwf.
   - apply (exec_call_stmt en props true f args); exact Hwf.
@@ -390,6 +400,7 @@ Proof.
   - apply exec_set_the; exact Hwf.
   - apply exec_set_acc; exact Hwf.
   - apply exec_set_menu; exact Hwf.
+  - apply exec_exit.
 Qed.
 
 (* ---- a sequence of statements ---- *)
